@@ -41,7 +41,15 @@ SegNameSet(L) == {L[i].name : i \in SegIdx(L)}
 \* every identifier in use (segments, named edges, paths, ...)
 UsedIds(L) == {L[i].name : i \in {j \in Idx(L) : L[j].name # "*" /\ L[j].rt # "#"}}
 SegLineOf(L, n) == L[CHOOSE i \in SegIdx(L) : L[i].name = n]
-EdgeIdxOf(L, N) == {i \in Idx(L) : IsEdgeLine(L[i]) /\ MentionsAny(L[i], N)}
+\* The statement speaks about the DOVETAILS AND CONTAINMENTS of the segment ("each carrying a
+\* copy of every dovetail and containment ... the counts of the segment and of those edges
+\* divided by k").  A GFA2 edge that is neither (an internal overlap) is not one of "those
+\* edges": it belongs to "the rest of the graph [that] is untouched" -- not copied, its counts
+\* not divided, none appearing on a copy.
+IsCopiedKind(l) == IsDovetail(l) \/ IsContainment(l)
+IsInternalEdge(l) == IsEdgeLine(l) /\ ~IsCopiedKind(l)
+\* the dovetails and containments on the segments N
+EdgeIdxOf(L, N) == {i \in Idx(L) : IsEdgeLine(L[i]) /\ IsCopiedKind(L[i]) /\ MentionsAny(L[i], N)}
 
 \* a line without its count values / without identifier and count values
 NoCnt(l)   == [rt |-> l.rt, name |-> l.name, refs |-> l.refs, f |-> l.f, tags |-> Rng(l.otags),
@@ -63,9 +71,6 @@ IsSelfEdge(l, s) == RefIdSet(l) = {s}
 DoveEndsOn(l, n) ==
   IF IsDovetail(l) THEN {EndOfKey(KeyOn(l, i)) : i \in {j \in DOMAIN l.refs : l.refs[j].id = n}} ELSE {}
 
-\* the multiplication is outside the claim when the segment has edges of another kind
-\* (GFA2 internal alignments: gfapy copies dovetails and containments only)
-Claimed(pre, s) == \A i \in EdgeIdxOf(pre, {s}) : IsDovetail(pre[i]) \/ IsContainment(pre[i])
 
 -----------------------------------------------------------------------------
 (* k >= 2 *)
@@ -111,7 +116,7 @@ Ctx(pre, post, args) ==
       N == Group(pre, post, s)
       E == PreEdges(pre, s)
       P == EdgeIdxOf(post, N)
-      Q == {j \in Idx(post) : IsEdgeLine(post[j])} IN
+      Q == {j \in Idx(post) : IsEdgeLine(post[j]) /\ IsCopiedKind(post[j])} IN
   [s |-> s, k |-> args.k, N |-> N, E |-> E, P |-> P,
    cross |-> {j \in P : Cardinality(RefIdSet(post[j]) \cap N) > 1},
    pc |-> {<<i, EdgeCore(pre[i])>> : i \in E},
@@ -170,8 +175,9 @@ CountsOKx(pre, post, x) ==
   /\ \A q \in x.bc : \E p \in x.pc : q[2] = p[2] /\ post[q[1]].cnt = DivCnt(pre[p[1]].cnt, x.k)
 CountsOK(pre, post, args) == CountsOKx(pre, post, Ctx(pre, post, args))
 
-\* "the rest of the graph is untouched": lines that mention neither the segment nor a copy
-RestOf(L, N) == BagOf(SelectSeq(L, LAMBDA l : ~MentionsAny(l, N)))
+\* "the rest of the graph is untouched": lines that mention neither the segment nor a copy,
+\* and the internal overlaps, also those of the segment
+RestOf(L, N) == BagOf(SelectSeq(L, LAMBDA l : ~MentionsAny(l, N) \/ IsInternalEdge(l)))
 RestOK(pre, post, args) ==
   RestOf(pre, {args.seg}) = RestOf(post, Group(pre, post, args.seg))
 
